@@ -7,6 +7,9 @@ claimed = {
  "C03": ("exploration","hist","Seeded search over single-session histories (DDL incl. views/indexes/functions, INSERT, INSERT..SELECT, DELETE, simulated-time compaction+vacuum passes, 1-4 clean shutdown+reopen cycles) on the real on-disk engine with swarm-drawn storage options; after each reopen every table's definition (pg_attribute) and row multiset is compared with its state before shutdown, dropped tables must stay dropped, and post-reopen statements must be accepted. Evidence, not proof: thousands of distinct histories per run.","4"),
  "C05": ("exploration","hist","Twin run: one seeded statement stream (incl. deliberately invalid statements) is driven into new_in_memory() and new_on_disk(knobs); the disk twin additionally gets simulated-time compaction passes and reopens. After every statement Ok/Err and result multisets (sequences on ORDER BY keys) must agree.","4"),
  "C07": ("exploration","hist","Seeded histories over {INSERT batch, DELETE WHERE p, advance clock past the compactor timer, vacuum, reopen} with row-set sizes forcing several row-sets and partial compactions; after every step every table is compared with a multiset model, DELETE counts are checked, results across each compaction pass are compared, sorted storage scans are checked for key order.","4"),
+ "C08": ("exploration","sched","Concurrent actors - 1-2 storage-level readers (open scan, fetch batches of seeded sizes), 2-3 writer sessions (INSERT, DELETE, DROP TABLE), the real compactor and vacuum tasks - run as tokio tasks on the single simulator thread and park at harness gates and guarded in-engine gates; a seeded scheduler releases exactly one parked actor or advances the simulated clock per decision after quiescence. Each reader's rows must equal the model state of the statements acknowledged before its pin plus some subset of those in flight around it; no reader call may fail; no row-set directory of the version a reader pinned (per the manifest at pin time) may be unlinked while it runs.","4"),
+ "C09": ("exploration","sched","2-4 sessions issue INSERT / DELETE on 2-3 tables while compactor passes are parked and released at 'pass begin / table locked / selected / inputs opened / inputs read / before commit / committed' and commits at 'manifest locked / before append / after append'; after all actors finish, every table's multiset must be the result of some order of the acknowledged statements respecting session order (exhaustive search with memoisation, <= 14 statements), and must be unchanged by shutdown + reopen.","4"),
+ "C10": ("exploration","sched","2-4 sessions x <= 4 statements from {CREATE TABLE / DROP TABLE incl. same names, INSERT VALUES, DELETE WHERE, SELECT count(*)} interleaved at statement, bind, pin, commit and DDL gates; oracles: no session or background task panics, no process abort, no deadlock (progress within 5 simulated seconds once gates are opened), existence of a total order of the acknowledged statements respecting session order that reproduces every SELECT result and the final state (histories that are only explained by statement-level snapshot isolation are classified separately), shutdown + reopen succeeds and shows the same state. Multi-threaded preemption inside a poll is not explored.","4"),
  "C12": ("exploration","hist","Seeded layout histories (several row-sets, DVs, compactions, reopen) with ORDER BY / LIMIT / OFFSET queries at query points, each checked against the engine's own unordered result: K-sorted, permutation, slice [m..m+n] on K, unordered LIMIT count and containment.","4"),
  "C04": ("fault_enumeration","crash","A seeded history is executed once on the real on-disk engine with every mutating syscall journalled at the libc boundary (so a removed or reordered fsync/write/rename is seen as the kernel would see it); crash images are then derived from the journal for crash indexes x torn lengths of the write in flight x durability model (everything issued / un-synced tails lost) x one-level crash during recovery; each image is recovered with Database::new_on_disk and must equal the model of the acknowledged prefix with or without the statement in flight, accept new statements, and a second recovery must agree. Thorough enumerates every index and every byte of manifest writes.","4"),
  "C15": ("fault_enumeration","fault","For each statement under test (filtered scans, aggregates, ORDER BY/LIMIT, joins, INSERT VALUES, INSERT..SELECT, DELETE) a fault-free execution on a twin database records rows and per-operator item counts; then (operator, item index, error|panic) faults are injected through the guarded hook in the per-operator output loop, one per execution, and I/O faults (EIO, ENOSPC, EINTR, short transfer) on the n-th syscall of a given class and file; reads are faulted on a cold copy. A statement in which a fault fired must not return Ok with different rows; a failed INSERT/DELETE must leave its table unchanged in the running instance and in a reopened copy of the directory; an acknowledged one must be durable.","4"),
@@ -14,6 +17,7 @@ claimed = {
  "C13": ("exploration","hist","Seeded layout histories on tables with a primary key of any type at any position, tiny blocks, with key-range queries at query points; each is compared with the same query under PRAGMA disable_optimizer (no pushdown), with the model, and at storage level scan(range) vs scan()+filter.","4"),
 }
 tech = {
+ "sched": "deterministic simulation: seeded scheduler over gated concurrent actors (sessions, readers, compactor, vacuum) on a paused clock, serial-order / snapshot checker against a reference model",
  "fault": "deterministic simulation: enumerated operator-level error/panic injection and syscall-level I/O fault injection, twin-database oracle",
  "crash": "deterministic simulation: syscall-journal-derived crash images (torn writes, lost un-synced tails, crash during recovery) checked against a reference model",
  "corrupt": "deterministic simulation: enumerated at-rest disk corruption x read order, results compared with pristine reads",
@@ -67,6 +71,7 @@ m = {
    {"name":"crash","path":"/verif/sim/src/crash.rs","serves_properties":["C04"],"kind_free_text":"libc-interposition journal, crash-image enumeration and recovery against a model"},
    {"name":"corrupt","path":"/verif/sim/src/corrupt.rs","serves_properties":["C18"],"kind_free_text":"at-rest corruption enumeration x read order"},
    {"name":"fault","path":"/verif/sim/src/fault.rs","serves_properties":["C15"],"kind_free_text":"operator and I/O fault enumeration against a fault-free twin"},
+   {"name":"sched","path":"/verif/sim/src/sched.rs","serves_properties":["C08","C09","C10"],"kind_free_text":"gated-actor scheduler simulation with serial-order checker"},
    {"name":"hist","path":"/verif/sim/src/hist.rs","serves_properties":["C03","C05","C07","C12","C13"],"kind_free_text":"seeded single-session history simulation (simulated clock, compaction/vacuum passes, reopen) with reference model and twin-engine oracles"},
  ],
  "checks": checks,
